@@ -9,7 +9,7 @@ def p_parts():
     from ._deflevels import p_deflevels
     from ._bookkeeping import p_bookkeeping
     from ._generic import optional_parts
-    return [p_append, p_deflevels, p_bookkeeping] + optional_parts(("_units", "p_units"), ("_partfiles", "p_partfiles"))
+    return [p_append, p_deflevels, p_bookkeeping] + optional_parts(("_units", "p_units"), ("_partfiles", "p_partfiles"), ("_schematree", "p_schematree"), ("_makemeta", "p_makemeta"))
 
 
 def run(ctx):
